@@ -1248,6 +1248,23 @@ def check_e2e(ctx, cases):
             same = found("s0") == found("s1") and found("s0c") == found("s1", "found_after") == found("s2")
         else:
             same = found("s0") == found("s1") == found("s2")
+        bad_flt = None
+        for sname in ("s0", "s1", "s2"):
+            fl = r[sname].get("filter")
+            if fl:
+                (key, val), = fl.items()
+                want = sorted(json.dumps(x, sort_keys=True) for x in r[sname]["found"] if str(x["attr"].get(key)) == val)
+                got = r[sname].get("found_filtered")
+                got = got if isinstance(got, str) else sorted(json.dumps(x, sort_keys=True) for x in got)
+                if got != want:
+                    bad_flt = (sname, fl, got, want)
+                    break
+        if bad_flt:
+            sname, fl, got, want = bad_flt
+            ctx.fail("failing-input", f"find(filters={fl}) on a fileset whose files are all cached ({ {'s0': 'no cache file', 's1': 'first run with a cache file', 's2': 'run after restart'}[sname] }) "
+                     f"returns {got if isinstance(got, str) else len(got)} file(s), the files of the unfiltered answer with that value are {len(want)}",
+                     case=case, impl=r[sname], signature="e2e-filtered-find-with-cache")
+            continue
         if not same:
             ctx.fail("failing-input", "find() answers differ between no cache, first run and run after restart"
                      + (" (time_coverage set between two searches)" if c.get("coverage") else ""),
